@@ -216,7 +216,7 @@ Section Keywords.
       destruct ((z =? 1)%Z || (z =? 2)%Z); [|discriminate].
       inversion H; subst. reflexivity. }
     destruct (has "trcl" elt). { apply parse_trcl_app; assumption. }
-    destruct (has "u" elt).
+    destruct (String.eqb elt "u").
     { destruct rest as [|v r]; [discriminate|]. cbn [app].
       destruct (pytrunc e v); [|discriminate]. inversion H; subst. reflexivity. }
     destruct (has "rho" elt).
@@ -272,7 +272,7 @@ Section Keywords.
       destruct (map_opt (pyfloat e) ps); [|discriminate].
       destruct (fill_params SC e elt ps l); cbn in H; [|discriminate].
       inversion H; subst. eapply span_length; eassumption. }
-    destruct (has "u" elt).
+    destruct (String.eqb elt "u").
     { destruct rest as [|v r]; [discriminate|].
       destruct (pytrunc e v); [|discriminate]. inversion H; subst. cbn. lia. }
     destruct (has "rho" elt).
@@ -321,19 +321,14 @@ Section Keywords.
   Qed.
 
   (* ---- the dictionary after [ovr] is the merge [upd] ---- *)
-  Hypothesis pmax_assoc : forall a b c : T, pmax SC a (pmax SC b c) = pmax SC (pmax SC a b) c.
-
-  Lemma upd_assoc (st a d : kws) : upd SC (upd SC st a) d = upd SC st (upd SC a d).
+  Lemma upd_assoc (st a d : kws) : upd (upd st a) d = upd st (upd a d).
   Proof.
     destruct st as [i1 fb1 fu1 fp1 l1 t1 u1 r1 m1].
     destruct a as [i2 fb2 fu2 fp2 l2 t2 u2 r2 m2].
     destruct d as [i3 fb3 fu3 fp3 l3 t3 u3 r3 m3].
     unfold upd; cbn.
     f_equal.
-    - destruct i3 as [v|]; [|reflexivity].
-      destruct i2 as [w|]; [|reflexivity].
-      destruct i1 as [o|]; [|reflexivity].
-      now rewrite pmax_assoc.
+    - symmetry. apply app_assoc.
     - destruct fu3, fu2; reflexivity.
     - destruct fu3, fu2; reflexivity.
     - destruct fu3, fu2; reflexivity.
@@ -344,12 +339,12 @@ Section Keywords.
     - destruct m3, m2; reflexivity.
   Qed.
 
-  Lemma upd_kempty_r (st : kws) : upd SC st kempty = st.
-  Proof. destruct st. reflexivity. Qed.
+  Lemma upd_kempty_r (st : kws) : upd st kempty = st.
+  Proof. destruct st. unfold upd, kempty; cbn. rewrite app_nil_r. reflexivity. Qed.
 
   Lemma parse_from_upd (e : env) f : forall toks st a r,
     parse_from SC f e a toks = Ok r ->
-    parse_from SC f e (upd SC st a) toks = Ok (upd SC st r).
+    parse_from SC f e (upd st a) toks = Ok (upd st r).
   Proof.
     induction f as [|f IH]; intros toks st a r H.
     - destruct toks; [|discriminate]. cbn in *. inversion H; subst. reflexivity.
@@ -362,7 +357,7 @@ Section Keywords.
 
   Theorem keywords_later_wins (e : env) (opts ovr : list string) (k1 k2 : kws) :
     parse_kws SC e opts = Ok k1 -> parse_kws SC e ovr = Ok k2 -> kw_head ovr ->
-    parse_kws SC e (opts ++ ovr) = Ok (upd SC k1 k2).
+    parse_kws SC e (opts ++ ovr) = Ok (upd k1 k2).
   Proof.
     intros H1 H2 Hk. rewrite (parse_kws_app e opts ovr k1 H1 Hk).
     unfold parse_kws in H2.
@@ -370,36 +365,59 @@ Section Keywords.
   Qed.
 End Keywords.
 
-(* what [upd] does, entry by entry: the override's value when it has one, the
-   inherited value otherwise — except the importance *)
-Section UpdFields.
+(* ------------------------------------- importance, particle by particle *)
+Section Importance.
   Context {T : Type} (SC : Scalar T).
-  Variables k1 k2 : kws (T:=T).
 
-  Lemma upd_mat : k_mat (upd SC k1 k2) = orelse (k_mat k2) (k_mat k1).
-  Proof. reflexivity. Qed.
-  Lemma upd_rho : k_rho (upd SC k1 k2) = orelse (k_rho k2) (k_rho k1).
-  Proof. reflexivity. Qed.
-  Lemma upd_u : k_u (upd SC k1 k2) = orelse (k_u k2) (k_u k1).
-  Proof. reflexivity. Qed.
-  Lemma upd_trcl : k_trcl (upd SC k1 k2) = orelse (k_trcl k2) (k_trcl k1).
-  Proof. reflexivity. Qed.
-  Lemma upd_lat : k_lat (upd SC k1 k2) = orelse (k_lat k2) (k_lat k1).
-  Proof. reflexivity. Qed.
-  Lemma upd_fill_set u : k_fu k2 = Some u ->
-    (k_fb (upd SC k1 k2), k_fu (upd SC k1 k2), k_fp (upd SC k1 k2)) = (k_fb k2, k_fu k2, k_fp k2).
-  Proof. intros H. unfold upd; cbn. rewrite H. reflexivity. Qed.
-  Lemma upd_fill_unset : k_fu k2 = None ->
-    (k_fb (upd SC k1 k2), k_fu (upd SC k1 k2), k_fp (upd SC k1 k2)) = (k_fb k1, k_fu k1, k_fp k1).
-  Proof. intros H. unfold upd; cbn. rewrite H. reflexivity. Qed.
-  Lemma upd_imp_unset : k_imp k2 = None -> k_imp (upd SC k1 k2) = k_imp k1.
-  Proof. intros H. unfold upd; cbn. rewrite H. reflexivity. Qed.
-  Lemma upd_imp_fresh v : k_imp k2 = Some v -> k_imp k1 = None -> k_imp (upd SC k1 k2) = Some v.
-  Proof. intros H H1. unfold upd; cbn. rewrite H, H1. reflexivity. Qed.
-  Lemma upd_imp_max v o : k_imp k2 = Some v -> k_imp k1 = Some o ->
-    k_imp (upd SC k1 k2) = Some (pmax SC v o).
-  Proof. intros H H1. unfold upd; cbn. rewrite H, H1. reflexivity. Qed.
-End UpdFields.
+  (* the last value written for particle p in a list of IMP entries *)
+  Definition imp_last (log : list (string * T)) (p : string) : option T :=
+    fold_left (fun acc qv => if String.eqb (fst qv) p then Some (snd qv) else acc) log None.
+
+  Fixpoint assoc_find (l : list (string * T)) (p : string) : option T :=
+    match l with
+    | [] => None
+    | (q, w) :: r => if String.eqb q p then Some w else assoc_find r p
+    end.
+
+  Lemma assoc_find_set1 l q v p :
+    assoc_find (set1 l q v) p = if String.eqb q p then Some v else assoc_find l p.
+  Proof.
+    induction l as [|[q' w] r IH]; cbn.
+    - reflexivity.
+    - destruct (String.eqb q' q) eqn:E.
+      + apply String.eqb_eq in E. subst q'. cbn. destruct (String.eqb q p); reflexivity.
+      + cbn. rewrite IH. destruct (String.eqb q' p) eqn:E2; [|reflexivity].
+        destruct (String.eqb q p) eqn:E3; [|reflexivity].
+        apply String.eqb_eq in E2. apply String.eqb_eq in E3. subst.
+        rewrite String.eqb_refl in E. discriminate.
+  Qed.
+
+  Lemma imp_dict_gen log : forall acc p,
+    assoc_find (fold_left (fun a pv => set1 a (fst pv) (snd pv)) log acc) p =
+    fold_left (fun a qv => if String.eqb (fst qv) p then Some (snd qv) else a) log (assoc_find acc p).
+  Proof.
+    induction log as [|[q v] r IH]; intros acc p; cbn [fold_left fst snd]; [reflexivity|].
+    rewrite IH, assoc_find_set1. reflexivity.
+  Qed.
+
+  (* imp_by_particle[p] at the end of parse_keywords *)
+  Lemma imp_dict_last log p : assoc_find (imp_dict log) p = imp_last log p.
+  Proof. unfold imp_dict, imp_last. rewrite imp_dict_gen. reflexivity. Qed.
+
+  Lemma imp_last_gen log p : forall acc,
+    fold_left (fun a qv => if String.eqb (fst qv) p then Some (snd qv) else a) log acc =
+    match imp_last log p with Some v => Some v | None => acc end.
+  Proof.
+    unfold imp_last. induction log as [|[q v] r IH]; intros acc; cbn [fold_left fst snd]; [reflexivity|].
+    rewrite IH. rewrite (IH (if String.eqb q p then Some v else None)).
+    destruct (fold_left _ r None); [reflexivity|]. destruct (String.eqb q p); reflexivity.
+  Qed.
+
+  (* a later entry replaces an earlier one for the same particle *)
+  Lemma imp_last_app l1 l2 p :
+    imp_last (l1 ++ l2) p = match imp_last l2 p with Some v => Some v | None => imp_last l1 p end.
+  Proof. unfold imp_last at 1. rewrite fold_left_app. apply imp_last_gen. Qed.
+End Importance.
 
 (* -------------------------------------------------------- LIKE chains *)
 Section Chains.
@@ -470,8 +488,6 @@ Section Chains.
     is_explicit c -> parse_one_cell SC fuel e tbl rank lat c = worker SC e rank lat c.
   Proof. intros H. unfold parse_one_cell. rewrite resolve_explicit; auto. Qed.
 
-  Hypothesis pmax_assoc : forall a b c : T, pmax SC a (pmax SC b c) = pmax SC (pmax SC a b) c.
-
   (* LIKE n BUT o is the cell built from the material and the geometry of the
      card that n stands for and from n's keyword dictionary overridden by o *)
   Theorem like_equals_expanded (e : env) tbl fuel rank lat mat0 g0 o n d mx gx ox kb ko :
@@ -482,14 +498,14 @@ Section Chains.
     (parse_material e mx >>= fun '(mid, rho) =>
      match getast e gx with
      | None => Err EParse
-     | Some ast => finish_cell e rank lat mid rho ast (upd SC kb ko)
+     | Some ast => finish_cell SC e rank lat mid rho ast (upd kb ko)
      end).
   Proof.
     intros Hg Hd Hf Hox Ho Hk Hb Hko.
     rewrite (like_equals_expanded_text e tbl fuel rank lat mat0 g0 o n d _ Hg Hd Hf).
     unfold worker. cbn [apply_but].
     rewrite (tokenize_app ox o Hox Ho).
-    rewrite (keywords_later_wins SC pmax_assoc e _ _ kb ko Hb Hko Hk).
+    rewrite (keywords_later_wins SC e _ _ kb ko Hb Hko Hk).
     destruct (parse_material e mx) as [[mid rho]|]; [|reflexivity].
     cbn [bind]. destruct (getast e gx); reflexivity.
   Qed.
@@ -501,7 +517,7 @@ Section Chains.
     (parse_material e mx >>= fun '(mid, rho) =>
      match getast e gx with
      | None => Err EParse
-     | Some ast => finish_cell e rank lat mid rho ast kb
+     | Some ast => finish_cell SC e rank lat mid rho ast kb
      end).
   Proof.
     intros Hx Hb. rewrite explicit_cell by exact Hx. unfold worker. rewrite Hb.
@@ -510,68 +526,7 @@ Section Chains.
   Qed.
 End Chains.
 
-(* --------------------------------------------------------- over the reals *)
-Lemma pmax_RS_assoc (a b c : R) : pmax RS a (pmax RS b c) = pmax RS (pmax RS a b) c.
-Proof.
-  unfold pmax; cbn [sltb RS].
-  destruct (Rltb b c) eqn:E1; destruct (Rltb a b) eqn:E2;
-  repeat match goal with
-  | H : Rltb _ _ = true |- _ => apply Rltb_true in H
-  | H : Rltb _ _ = false |- _ => apply Rltb_false in H
-  end;
-  repeat match goal with
-  | |- context [Rltb ?x ?y] =>
-      let E := fresh "E" in destruct (Rltb x y) eqn:E;
-      [apply Rltb_true in E | apply Rltb_false in E]
-  end; try reflexivity; try lra.
-Qed.
-
-(* importance: an override that does not decrease wins ... *)
-Lemma pmax_RS_ge (v o : R) : (o <= v)%R -> pmax RS v o = v.
-Proof.
-  intros H. unfold pmax; cbn [sltb RS]. destruct (Rltb v o) eqn:E; [|reflexivity].
-  apply Rltb_true in E. lra.
-Qed.
-
-(* ... one that decreases does not *)
-Lemma pmax_RS_lt (v o : R) : (v < o)%R -> pmax RS v o = o.
-Proof.
-  intros H. unfold pmax; cbn [sltb RS]. destruct (Rltb v o) eqn:E; [reflexivity|].
-  apply Rltb_false in E. lra.
-Qed.
-
-(* ------------------------------------ override semantics and its guard *)
-Section Override.
-  Context {T : Type} (SC : Scalar T).
-
-  (* what "copy the card and override the listed parameters" means on the
-     keyword dictionary: every entry of the BUT list replaces the inherited
-     one, the importance included *)
-  Definition override (k1 k2 : kws (T:=T)) : kws :=
-    mkKws (orelse (k_imp k2) (k_imp k1))
-          (match k_fu k2 with Some _ => k_fb k2 | None => k_fb k1 end)
-          (match k_fu k2 with Some _ => k_fu k2 | None => k_fu k1 end)
-          (match k_fu k2 with Some _ => k_fp k2 | None => k_fp k1 end)
-          (orelse (k_lat k2) (k_lat k1)) (orelse (k_trcl k2) (k_trcl k1))
-          (orelse (k_u k2) (k_u k1)) (orelse (k_rho k2) (k_rho k1))
-          (orelse (k_mat k2) (k_mat k1)).
-
-  (* the BUT list does not lower an importance written on the inherited cards *)
-  Definition imp_not_lowered (k1 k2 : kws (T:=T)) : Prop :=
-    match k_imp k2, k_imp k1 with
-    | Some v, Some o => pmax SC v o = v
-    | _, _ => True
-    end.
-
-  Lemma upd_is_override k1 k2 : imp_not_lowered k1 k2 -> upd SC k1 k2 = override k1 k2.
-  Proof.
-    unfold imp_not_lowered, upd, override. intros H. f_equal.
-    destruct (k_imp k2) as [v|]; [|reflexivity].
-    destruct (k_imp k1) as [o|]; [|reflexivity]. cbn. now rewrite H.
-  Qed.
-End Override.
-
-(* ------------------------------------------------------- the witness *)
+(* -------------------- BUT IMP:N=0 on a card that says IMP:N=1 (fix 0b05eba) *)
 Section Witness.
   Context {T : Type} (SC : Scalar T) (v0 v1 : T).
 
@@ -583,64 +538,19 @@ Section Witness.
           (fun s => s) (fun s => Some s) [] (fun _ => None).
 
   Definition wtbl : table :=
-    [(1%Z, (" 1 -1.0", " -1 ", "imp:n=1")); (2%Z, ("", " like 1 but", " imp:n=0"))].
+    [(1%Z, (" 1 -1.0", " -1 ", "imp:n=1 imp:p=0")); (2%Z, ("", " like 1 but", " imp:n=0"))].
 
+  (* the copy has importance max(n: v0, p: v0) = v0, like the card it abbreviates *)
   Lemma witness_like :
     parse_one_cell SC 2 wenv wtbl 1 None ("", " like 1 but", " imp:n=0") =
-    Ok (mkCell "1" (Some "-1.0") " -1 " (pmax SC v0 v1) 0%Z None None None None).
+    parse_one_cell SC 2 wenv wtbl 1 None (" 1 -1.0", " -1 ", "imp:n=0 imp:p=0").
   Proof. vm_compute. reflexivity. Qed.
 
-  (* the card it abbreviates: card 1 with IMP:N=0 instead of IMP:N=1 *)
-  Lemma witness_explicit :
-    parse_one_cell SC 2 wenv wtbl 1 None (" 1 -1.0", " -1 ", "imp:n=0") =
-    Ok (mkCell "1" (Some "-1.0") " -1 " v0 0%Z None None None None).
+  Lemma witness_like_value :
+    parse_one_cell SC 2 wenv wtbl 1 None ("", " like 1 but", " imp:n=0") =
+    Ok (mkCell "1" (Some "-1.0") " -1 " (pmax SC v0 v0) 0%Z None None None None).
   Proof. vm_compute. reflexivity. Qed.
 End Witness.
-
-Theorem like_imp_refuted :
-  exists (e : env (T:=R)) (tbl : table) (c_like c_expl : cell (T:=R)),
-    lookup 1%Z tbl = Some (" 1 -1.0", " -1 ", "imp:n=1") /\
-    parse_one_cell RS 2 e tbl 1 None ("", " like 1 but", " imp:n=0") = Ok c_like /\
-    parse_one_cell RS 2 e tbl 1 None (" 1 -1.0", " -1 ", "imp:n=0") = Ok c_expl /\
-    c_imp c_like = 1%R /\ c_imp c_expl = 0%R /\ c_like <> c_expl.
-Proof.
-  exists (wenv 0%R 1%R), wtbl.
-  eexists. eexists. split; [reflexivity|].
-  split; [apply (witness_like RS 0%R 1%R)|].
-  split; [apply (witness_explicit RS 0%R 1%R)|].
-  cbn [c_imp]. rewrite (pmax_RS_lt 0 1) by lra.
-  split; [reflexivity|]. split; [reflexivity|].
-  intros H. inversion H. lra.
-Qed.
-
-(* the full statement, guarded: over the reals, LIKE n BUT o is the cell built
-   from the material and geometry of the card n stands for and from n's
-   dictionary with every listed parameter overridden *)
-Theorem like_equals_expanded_R (e : env (T:=R)) tbl fuel rank lat mat0 g0 o n d mx gx ox kb ko :
-  search_like (lower g0) = Some n -> denotes tbl n d (mx, gx, ox) -> (d < fuel)%nat ->
-  sq_state false ox = false -> leads_colon o = false -> kw_head (tokenize o) ->
-  parse_kws RS e (tokenize ox) = Ok kb -> parse_kws RS e (tokenize o) = Ok ko ->
-  imp_not_lowered RS kb ko ->
-  parse_one_cell RS fuel e tbl rank lat (mat0, g0, o) =
-  (parse_material e mx >>= fun '(mid, rho) =>
-   match getast e gx with
-   | None => Err EParse
-   | Some ast => finish_cell e rank lat mid rho ast (override kb ko)
-   end).
-Proof.
-  intros Hg Hd Hf Hox Ho Hk Hb Hko Hi.
-  rewrite (like_equals_expanded RS pmax_RS_assoc e tbl fuel rank lat mat0 g0 o n d mx gx ox kb ko
-             Hg Hd Hf Hox Ho Hk Hb Hko).
-  now rewrite (upd_is_override RS kb ko Hi).
-Qed.
-
-Lemma imp_not_lowered_R (k1 k2 : kws (T:=R)) :
-  (forall v o, k_imp k2 = Some v -> k_imp k1 = Some o -> (o <= v)%R) -> imp_not_lowered RS k1 k2.
-Proof.
-  intros H. unfold imp_not_lowered.
-  destruct (k_imp k2) as [v|]; [|exact I]. destruct (k_imp k1) as [o|]; [|exact I].
-  apply pmax_RS_ge, H; reflexivity.
-Qed.
 
 (* ------------------------------ a chain of two LIKE cards (non-vacuity) *)
 Section Example.
@@ -653,9 +563,9 @@ Section Example.
 
   Definition x_ox : string := "imp:n=0  MAT=2 imp:n=1".
   Definition x_kb : kws (T:=T) :=
-    mkKws (Some (pmax SC v1 v0)) None None None None None None None (Some "2").
+    mkKws [("n", v0); ("n", v1)] None None None None None None None (Some "2").
   Definition x_ko : kws (T:=T) :=
-    mkKws None None None None None (Some [v0]) None (Some "-2.5") None.
+    mkKws [] None None None None (Some [v0]) None (Some "-2.5") None.
 
   (* TR0 is the only TR card of the example *)
   Definition xenv : env (T:=T) :=
@@ -685,85 +595,91 @@ Section Example.
   Qed.
 End Example.
 
-(* ------------------------------------------- statements over the reals *)
-Lemma pmax_RS_Rmax (v o : R) : pmax RS v o = Rmax v o.
-Proof.
-  unfold pmax, Rmax; cbn [sltb RS].
-  destruct (Rltb v o) eqn:E; [apply Rltb_true in E|apply Rltb_false in E];
-    destruct (Rle_dec v o); try reflexivity; lra.
-Qed.
-
-Theorem keywords_later_wins_R (e : env (T:=R)) (opts ovr : list string) (k1 k2 : kws (T:=R)) :
-  parse_kws RS e opts = Ok k1 -> parse_kws RS e ovr = Ok k2 -> kw_head ovr ->
-  exists k, parse_kws RS e (opts ++ ovr) = Ok k /\
-    k_mat k = orelse (k_mat k2) (k_mat k1) /\
-    k_rho k = orelse (k_rho k2) (k_rho k1) /\
-    k_u k = orelse (k_u k2) (k_u k1) /\
-    k_trcl k = orelse (k_trcl k2) (k_trcl k1) /\
-    k_lat k = orelse (k_lat k2) (k_lat k1) /\
-    (k_fb k, k_fu k, k_fp k) =
-      match k_fu k2 with
-      | Some _ => (k_fb k2, k_fu k2, k_fp k2)
-      | None => (k_fb k1, k_fu k1, k_fp k1)
-      end /\
-    k_imp k = match k_imp k2, k_imp k1 with
-              | Some v, Some o => Some (Rmax v o)
-              | Some v, None => Some v
-              | None, x => x
-              end.
-Proof.
-  intros H1 H2 Hk. exists (upd RS k1 k2).
-  split; [apply (keywords_later_wins RS pmax_RS_assoc e opts ovr k1 k2 H1 H2 Hk)|].
-  repeat split.
-  - unfold upd; cbn. destruct (k_fu k2); reflexivity.
-  - unfold upd; cbn. destruct (k_imp k2) as [v|]; [|reflexivity].
-    destruct (k_imp k1) as [o|]; [|reflexivity]. now rewrite pmax_RS_Rmax.
-Qed.
-
-Theorem like_equals_expanded_full (e : env (T:=R)) tbl fuel rank lat mat0 g0 o n d mx gx ox kb ko :
+(* LIKE n BUT o and the card n stands for, side by side *)
+Theorem like_equals_expanded_full {T : Type} (SC : Scalar T) (e : env (T:=T))
+    tbl fuel rank lat mat0 g0 o n d mx gx ox kb ko :
   search_like (lower g0) = Some n -> denotes tbl n d (mx, gx, ox) -> (d < fuel)%nat ->
   sq_state false ox = false -> leads_colon o = false -> kw_head (tokenize o) ->
-  parse_kws RS e (tokenize ox) = Ok kb -> parse_kws RS e (tokenize o) = Ok ko ->
-  (forall v w, k_imp ko = Some v -> k_imp kb = Some w -> (w <= v)%R) ->
-  parse_one_cell RS fuel e tbl rank lat (mat0, g0, o) =
+  parse_kws SC e (tokenize ox) = Ok kb -> parse_kws SC e (tokenize o) = Ok ko ->
+  parse_one_cell SC fuel e tbl rank lat (mat0, g0, o) =
   (parse_material e mx >>= fun '(mid, rho) =>
    match getast e gx with
    | None => Err EParse
-   | Some ast => finish_cell e rank lat mid rho ast (override kb ko)
+   | Some ast => finish_cell SC e rank lat mid rho ast (upd kb ko)
    end) /\
-  parse_one_cell RS fuel e tbl rank lat (mx, gx, ox) =
+  parse_one_cell SC fuel e tbl rank lat (mx, gx, ox) =
   (parse_material e mx >>= fun '(mid, rho) =>
    match getast e gx with
    | None => Err EParse
-   | Some ast => finish_cell e rank lat mid rho ast kb
+   | Some ast => finish_cell SC e rank lat mid rho ast kb
    end).
 Proof.
-  intros Hg Hd Hf Hox Ho Hk Hb Hko Hi. split.
-  - apply (like_equals_expanded_R e tbl fuel rank lat mat0 g0 o n d mx gx ox kb ko);
-      try assumption. apply imp_not_lowered_R, Hi.
+  intros Hg Hd Hf Hox Ho Hk Hb Hko. split.
+  - apply (like_equals_expanded SC e tbl fuel rank lat mat0 g0 o n d mx gx ox kb ko); assumption.
   - apply base_cell; [|exact Hb]. exact (denotes_explicit tbl n d _ Hd).
+Qed.
+
+(* what [upd kb ko] holds, entry by entry *)
+Theorem upd_fields {T : Type} (k1 k2 : kws (T:=T)) :
+  let k := upd k1 k2 in
+  k_mat k = orelse (k_mat k2) (k_mat k1) /\
+  k_rho k = orelse (k_rho k2) (k_rho k1) /\
+  k_u k = orelse (k_u k2) (k_u k1) /\
+  k_trcl k = orelse (k_trcl k2) (k_trcl k1) /\
+  k_lat k = orelse (k_lat k2) (k_lat k1) /\
+  (k_fb k, k_fu k, k_fp k) =
+    match k_fu k2 with
+    | Some _ => (k_fb k2, k_fu k2, k_fp k2)
+    | None => (k_fb k1, k_fu k1, k_fp k1)
+    end /\
+  forall p, imp_last (k_impl k) p =
+            match imp_last (k_impl k2) p with Some v => Some v | None => imp_last (k_impl k1) p end.
+Proof.
+  cbv zeta. repeat split.
+  - unfold upd; cbn. destruct (k_fu k2); reflexivity.
+  - intros p. unfold upd; cbn. apply imp_last_app.
 Qed.
 
 (* ------------------------- BUT MAT=0: the copy is the explicit void card *)
 Section VoidOverride.
-  Context {T : Type}.
+  Context {T : Type} (SC : Scalar T).
 
   (* the dictionary of the explicit card: MAT and RHO exist in BUT lists only *)
   Definition drop_mat_rho (k : kws (T:=T)) : kws :=
-    mkKws (k_imp k) (k_fb k) (k_fu k) (k_fp k) (k_lat k) (k_trcl k) (k_u k) None None.
+    mkKws (k_impl k) (k_fb k) (k_fu k) (k_fp k) (k_lat k) (k_trcl k) (k_u k) None None.
 
   (* a cell whose dictionary says MAT=m with int(m) = 0 is the cell of the void
      card "m <geometry> <the other keywords>": material token m, no density *)
   Lemma finish_cell_void (e : env (T:=T)) rank lat mid rho ast (k : kws (T:=T)) m :
     k_mat k = Some m -> pyint m = Some 0%Z ->
-    finish_cell e rank lat mid rho ast k = finish_cell e rank lat m None ast (drop_mat_rho k).
+    finish_cell SC e rank lat mid rho ast k = finish_cell SC e rank lat m None ast (drop_mat_rho k).
   Proof.
-    intros Hm H0. unfold finish_cell, drop_mat_rho. cbn [k_imp k_u k_mat k_rho k_fp k_lat k_trcl].
+    intros Hm H0. unfold finish_cell, drop_mat_rho. cbn [k_impl k_u k_mat k_rho k_fp k_lat k_trcl].
     rewrite Hm, H0.
-    destruct (match k_imp k with Some v => Ok v | None =>
+    destruct (match imp_value SC (k_impl k) with Some v => Ok v | None =>
                 match nth_error (imps e) rank with Some v => Ok v | None => Err EParse end end);
       [|reflexivity].
     cbn [bind]. reflexivity.
+  Qed.
+
+  Theorem like_mat_void (e : env (T:=T)) tbl fuel rank lat mat0 g0 o n d mx gx ox kb ko m :
+    search_like (lower g0) = Some n -> denotes tbl n d (mx, gx, ox) -> (d < fuel)%nat ->
+    sq_state false ox = false -> leads_colon o = false -> kw_head (tokenize o) ->
+    parse_kws SC e (tokenize ox) = Ok kb -> parse_kws SC e (tokenize o) = Ok ko ->
+    k_mat ko = Some m -> pyint m = Some 0%Z ->
+    parse_one_cell SC fuel e tbl rank lat (mat0, g0, o) =
+    (parse_material e mx >>= fun _ =>
+     match getast e gx with
+     | None => Err EParse
+     | Some ast => finish_cell SC e rank lat m None ast (drop_mat_rho (upd kb ko))
+     end).
+  Proof.
+    intros Hg Hd Hf Hox Ho Hk Hb Hko Hm H0.
+    rewrite (like_equals_expanded SC e tbl fuel rank lat mat0 g0 o n d mx gx ox kb ko
+               Hg Hd Hf Hox Ho Hk Hb Hko).
+    destruct (parse_material e mx) as [[mid rho]|]; [|reflexivity].
+    cbn [bind]. destruct (getast e gx); [|reflexivity].
+    apply finish_cell_void; [|exact H0]. unfold upd; cbn. rewrite Hm. reflexivity.
   Qed.
 End VoidOverride.
 
@@ -951,71 +867,6 @@ Proof.
   rewrite !lower_app, HL, HB, (lower_digits ds Hd).
   change (lower " ") with " ". apply (like_re_recognises ds Hd Hn).
 Qed.
-(* ---- later keyword wins at any scalar type, for overrides without IMP ---- *)
-Section AnyScalar.
-  Context {T : Type} (SC : Scalar T).
-  Notation env := (env (T:=T)).
-  Notation kws := (kws (T:=T)).
-
-  Lemma upd_assoc_noimp (st a d : kws) :
-    k_imp d = None -> upd SC (upd SC st a) d = upd SC st (upd SC a d).
-  Proof.
-    destruct st as [i1 fb1 fu1 fp1 l1 t1 u1 r1 m1].
-    destruct a as [i2 fb2 fu2 fp2 l2 t2 u2 r2 m2].
-    destruct d as [i3 fb3 fu3 fp3 l3 t3 u3 r3 m3].
-    cbn. intros ->. unfold upd; cbn. f_equal.
-    - destruct fu3, fu2; reflexivity.
-    - destruct fu3, fu2; reflexivity.
-    - destruct fu3, fu2; reflexivity.
-    - destruct l3, l2; reflexivity.
-    - destruct t3, t2; reflexivity.
-    - destruct u3, u2; reflexivity.
-    - destruct r3, r2; reflexivity.
-    - destruct m3, m2; reflexivity.
-  Qed.
-
-  Lemma upd_imp_none (a d : kws) : k_imp (upd SC a d) = None -> k_imp d = None.
-  Proof. unfold upd; cbn. destruct (k_imp d); [discriminate|reflexivity]. Qed.
-
-  Lemma parse_from_imp_none (e : env) f : forall toks a r,
-    parse_from SC f e a toks = Ok r -> k_imp r = None -> k_imp a = None.
-  Proof.
-    induction f as [|f IH]; intros toks a r H Hr.
-    - destruct toks; [|discriminate]. cbn in H. inversion H; subst. exact Hr.
-    - destruct toks as [|elt rest].
-      + cbn in H. inversion H; subst. exact Hr.
-      + cbn [parse_from] in H.
-        destruct (step SC e elt rest) as [[d rest']|]; [|discriminate].
-        cbn [bind] in H. specialize (IH _ _ _ H Hr).
-        unfold upd in IH; cbn in IH. destruct (k_imp d); [discriminate|exact IH].
-  Qed.
-
-  Lemma parse_from_upd_noimp (e : env) f : forall toks st a r,
-    parse_from SC f e a toks = Ok r -> k_imp r = None ->
-    parse_from SC f e (upd SC st a) toks = Ok (upd SC st r).
-  Proof.
-    induction f as [|f IH]; intros toks st a r H Hr.
-    - destruct toks; [|discriminate]. cbn in *. inversion H; subst. reflexivity.
-    - destruct toks as [|elt rest].
-      + cbn in *. inversion H; subst. reflexivity.
-      + cbn [parse_from] in *.
-        destruct (step SC e elt rest) as [[d rest']|]; [|discriminate].
-        cbn [bind] in *.
-        pose proof (parse_from_imp_none e f _ _ _ H Hr) as Hd.
-        apply upd_imp_none in Hd.
-        rewrite (upd_assoc_noimp st a d Hd). apply IH; assumption.
-  Qed.
-
-  Theorem keywords_later_wins_noimp (e : env) (opts ovr : list string) (k1 k2 : kws) :
-    parse_kws SC e opts = Ok k1 -> parse_kws SC e ovr = Ok k2 -> kw_head ovr ->
-    k_imp k2 = None ->
-    parse_kws SC e (opts ++ ovr) = Ok (upd SC k1 k2).
-  Proof.
-    intros H1 H2 Hk Hi. rewrite (parse_kws_app SC e opts ovr k1 H1 Hk).
-    unfold parse_kws in H2.
-    rewrite <- (upd_kempty_r SC k1) at 1. apply parse_from_upd_noimp; assumption.
-  Qed.
-End AnyScalar.
 (* ---- the fuel of parse_all (number of cards) is enough for every chain ---- *)
 Lemma lookup_in n tbl : forall c, lookup n tbl = Some c -> In n (map fst tbl).
 Proof.
@@ -1080,26 +931,6 @@ Proof.
 Qed.
 
 (* LIKE n BUT ... MAT=0 ...: the copy is the void card *)
-Theorem like_mat_void_R (e : env (T:=R)) tbl fuel rank lat mat0 g0 o n d mx gx ox kb ko m :
-  search_like (lower g0) = Some n -> denotes tbl n d (mx, gx, ox) -> (d < fuel)%nat ->
-  sq_state false ox = false -> leads_colon o = false -> kw_head (tokenize o) ->
-  parse_kws RS e (tokenize ox) = Ok kb -> parse_kws RS e (tokenize o) = Ok ko ->
-  (forall v w, k_imp ko = Some v -> k_imp kb = Some w -> (w <= v)%R) ->
-  k_mat ko = Some m -> pyint m = Some 0%Z ->
-  parse_one_cell RS fuel e tbl rank lat (mat0, g0, o) =
-  (parse_material e mx >>= fun _ =>
-   match getast e gx with
-   | None => Err EParse
-   | Some ast => finish_cell e rank lat m None ast (drop_mat_rho (override kb ko))
-   end).
-Proof.
-  intros Hg Hd Hf Hox Ho Hk Hb Hko Hi Hm H0.
-  destruct (like_equals_expanded_full e tbl fuel rank lat mat0 g0 o n d mx gx ox kb ko
-              Hg Hd Hf Hox Ho Hk Hb Hko Hi) as [H _].
-  rewrite H. destruct (parse_material e mx) as [[mid rho]|]; [|reflexivity].
-  cbn [bind]. destruct (getast e gx); [|reflexivity].
-  apply finish_cell_void; [|exact H0]. unfold override; cbn. rewrite Hm. reflexivity.
-Qed.
 (* ---- replacing a LIKE card by its expansion leaves parse_all unchanged ---- *)
 Local Open Scope list_scope.
 Lemma lookup_app n (a b : table) :
@@ -1319,3 +1150,141 @@ Proof.
     eapply den_like with (m := 2%Z) (mat := "") (g := " LIKE 2 BUT");
       [vm_compute; reflexivity|vm_compute; reflexivity|exact H2].
 Qed.
+
+
+(* later keyword wins, with the content of the merged dictionary spelt out *)
+Theorem keywords_later_wins_fields {T : Type} (SC : Scalar T) (e : env (T:=T))
+    (opts ovr : list string) (k1 k2 : kws (T:=T)) :
+  parse_kws SC e opts = Ok k1 -> parse_kws SC e ovr = Ok k2 -> kw_head ovr ->
+  exists k, parse_kws SC e (opts ++ ovr) = Ok k /\
+    k_mat k = orelse (k_mat k2) (k_mat k1) /\
+    k_rho k = orelse (k_rho k2) (k_rho k1) /\
+    k_u k = orelse (k_u k2) (k_u k1) /\
+    k_trcl k = orelse (k_trcl k2) (k_trcl k1) /\
+    k_lat k = orelse (k_lat k2) (k_lat k1) /\
+    (k_fb k, k_fu k, k_fp k) =
+      match k_fu k2 with
+      | Some _ => (k_fb k2, k_fu k2, k_fp k2)
+      | None => (k_fb k1, k_fu k1, k_fp k1)
+      end /\
+    forall p, imp_last (k_impl k) p =
+              match imp_last (k_impl k2) p with Some v => Some v | None => imp_last (k_impl k1) p end.
+Proof.
+  intros H1 H2 Hk. exists (upd k1 k2).
+  split; [apply (keywords_later_wins SC e opts ovr k1 k2 H1 H2 Hk)|]. apply upd_fields.
+Qed.
+
+(* the importance of a cell: maximum over the particles of the last value
+   written for each particle *)
+Lemma imp_value_dict {T : Type} (SC : Scalar T) (log : list (string * T)) :
+  (forall p, assoc_find (imp_dict log) p = imp_last log p) /\
+  imp_value SC log = match map snd (imp_dict log) with
+                     | [] => None
+                     | v :: r => Some (fold_left (pmax SC) r v)
+                     end.
+Proof. split; [intros p; apply imp_dict_last|reflexivity]. Qed.
+
+(* ---- expanding every LIKE card ---- *)
+Definition explicit_b (c : card) : bool :=
+  match search_like (lower (geom_of c)) with None => true | Some _ => false end.
+
+Lemma explicit_b_true c : explicit_b c = true <-> is_explicit c.
+Proof.
+  unfold explicit_b, is_explicit. destruct (search_like (lower (geom_of c))); split; intros H;
+    try reflexivity; try discriminate.
+Qed.
+
+Lemma lookup_some_in (tbl : table) j : forall c, lookup j tbl = Some c -> In (j, c) tbl.
+Proof.
+  induction tbl as [|[m c'] r IH]; intros c; cbn; [discriminate|].
+  destruct (lookup j r) eqn:E.
+  - intros H. inversion H; subst. right. apply IH. reflexivity.
+  - destruct (j =? m)%Z eqn:E2; [|discriminate]. apply Z.eqb_eq in E2. subst.
+    intros H. inversion H; subst. left. reflexivity.
+Qed.
+
+Lemma lookup_in_nodup (t : table) j c : NoDup (map fst t) -> In (j, c) t -> lookup j t = Some c.
+Proof.
+  induction t as [|[m c'] r IH]; cbn; intros Hn Hi; [tauto|].
+  inversion Hn as [|? ? Hnot Hn']; subst.
+  destruct Hi as [Hi|Hi].
+  - inversion Hi; subst. rewrite (lookup_none j r Hnot), Z.eqb_refl. reflexivity.
+  - rewrite (IH Hn' Hi). reflexivity.
+Qed.
+
+Definition n_like (tbl : table) : nat :=
+  List.length (filter (fun kc => negb (explicit_b (snd kc))) tbl).
+
+Lemma n_like_app a b : n_like (a ++ b) = (n_like a + n_like b)%nat.
+Proof. unfold n_like. rewrite filter_app, app_length. reflexivity. Qed.
+
+Lemma n_like_zero tbl : n_like tbl = 0%nat -> forall j c, In (j, c) tbl -> is_explicit c.
+Proof.
+  unfold n_like. intros H j c Hi.
+  destruct (explicit_b c) eqn:E; [apply explicit_b_true, E|].
+  assert (Hin : In (j, c) (filter (fun kc => negb (explicit_b (snd kc))) tbl)).
+  { apply filter_In. split; [exact Hi|]. cbn. rewrite E. reflexivity. }
+  destruct (filter (fun kc => negb (explicit_b (snd kc))) tbl); [destruct Hin|discriminate].
+Qed.
+
+Lemma n_like_pos tbl : n_like tbl <> 0%nat -> exists j c, In (j, c) tbl /\ explicit_b c = false.
+Proof.
+  unfold n_like. intros H.
+  destruct (filter (fun kc => negb (explicit_b (snd kc))) tbl) as [|[j c] r] eqn:E; [cbn in H; congruence|].
+  assert (Hin : In (j, c) (filter (fun kc => negb (explicit_b (snd kc))) tbl)) by (rewrite E; left; reflexivity).
+  apply filter_In in Hin. destruct Hin as [Hi Hb]. cbn in Hb.
+  exists j, c. split; [exact Hi|]. destruct (explicit_b c); [discriminate|reflexivity].
+Qed.
+
+Theorem expand_all {T : Type} (SC : Scalar T) (e : env (T:=T)) : forall (k : nat) (tbl : table),
+  n_like tbl = k -> NoDup (map fst tbl) ->
+  (forall j c, In (j, c) tbl -> exists dj xj, denotes tbl j dj xj) ->
+  exists tbl_e,
+    map fst tbl_e = map fst tbl /\
+    (forall j c, In (j, c) tbl_e -> is_explicit c) /\
+    (forall j dj xj, denotes tbl j dj xj -> lookup j tbl_e = Some xj) /\
+    parse_all SC e tbl_e = parse_all SC e tbl.
+Proof.
+  induction k as [|k IH]; intros tbl Hk Hnd Hall.
+  - exists tbl. split; [reflexivity|]. split; [exact (n_like_zero tbl Hk)|].
+    split; [|reflexivity].
+    intros j dj xj Hd.
+    destruct Hd as [j c Hl Hc|j m mat g o d x Hl Hs Hd]; [exact Hl|].
+    exfalso.
+    pose proof (lookup_some_in tbl j _ Hl) as Hi.
+    pose proof (n_like_zero tbl Hk j _ Hi) as Hex.
+    unfold is_explicit, geom_of in Hex. cbn [fst snd] in Hex. congruence.
+  - destruct (n_like_pos tbl ltac:(lia)) as (j & c & Hi & Hb).
+    destruct (in_split _ _ Hi) as (pre & post & ->).
+    pose proof (lookup_in_nodup (pre ++ (j, c) :: post) j c Hnd Hi) as Hl.
+    destruct (Hall j c Hi) as (dj & xj & Hdj).
+    destruct (denotes_inv _ j dj xj c Hdj Hl) as [Hc|(mat & g & o & m & d & x & -> & Hs & Hd)].
+    { apply explicit_b_true in Hc. congruence. }
+    destruct (replace_like_card_full SC e pre post j mat g o m d x Hnd Hs Hd Hall) as (Hp & Hnd' & Hall').
+    assert (Hk' : n_like (pre ++ (j, apply_but x o) :: post) = k).
+    { rewrite n_like_app in *. unfold n_like in *. cbn [filter snd] in *.
+      rewrite Hb in Hk. cbn [negb List.length] in Hk.
+      assert (Hx : explicit_b (apply_but x o) = true).
+      { apply explicit_b_true. unfold is_explicit. rewrite apply_but_geom.
+        exact (denotes_explicit _ m d x Hd). }
+      rewrite Hx. cbn [negb]. lia. }
+    destruct (IH _ Hk' Hnd' Hall') as (tbl_e & Hkeys & Hexp & Hden & Hpar).
+    exists tbl_e. split.
+    { rewrite Hkeys. apply replace_keeps_keys. }
+    split; [exact Hexp|]. split.
+    + intros j' dj' xj' Hd'.
+      destruct (denotes_transfer pre post j (mat, g, o) (apply_but x o) Hnd mat g o m d x
+                  eq_refl Hs Hd eq_refl j' dj' xj' Hd') as [d'' Hd''].
+      exact (Hden j' d'' xj' Hd'').
+    + rewrite Hpar. exact Hp.
+Qed.
+
+Theorem expand_all_cards {T : Type} (SC : Scalar T) (e : env (T:=T)) (tbl : table) :
+  NoDup (map fst tbl) ->
+  (forall j c, In (j, c) tbl -> exists dj xj, denotes tbl j dj xj) ->
+  exists tbl_e,
+    map fst tbl_e = map fst tbl /\
+    (forall j c, In (j, c) tbl_e -> is_explicit c) /\
+    (forall j dj xj, denotes tbl j dj xj -> lookup j tbl_e = Some xj) /\
+    parse_all SC e tbl_e = parse_all SC e tbl.
+Proof. intros Hnd Hall. exact (expand_all SC e (n_like tbl) tbl eq_refl Hnd Hall). Qed.
